@@ -396,6 +396,9 @@ func (in *Interp) verifrt(name string, args []Value, site ssa.Instruction) (Valu
 	case "SymBool":
 		return c.Var(args[0].(string), smt.SBool), true
 	case "Bool":
+		if v, ok := p.Choices[args[0].(string)]; ok {
+			return v.(bool), true // same name, same value (as natively)
+		}
 		if f, ok := in.Fixed[args[0].(string)]; ok {
 			p.Choices[args[0].(string)] = f == "true"
 			return f == "true", true
@@ -405,6 +408,9 @@ func (in *Interp) verifrt(name string, args []Value, site ssa.Instruction) (Valu
 		return k == 1, true
 	case "IntRange":
 		lo, hi := args[1].(int64), args[2].(int64)
+		if v, ok := p.Choices[args[0].(string)]; ok {
+			return v.(int64), true
+		}
 		if f, ok := in.Fixed[args[0].(string)]; ok {
 			n, _ := strconv.Atoi(f)
 			if int64(n) < lo || int64(n) > hi {
@@ -418,6 +424,9 @@ func (in *Interp) verifrt(name string, args []Value, site ssa.Instruction) (Valu
 		return lo + int64(k), true
 	case "OneOf":
 		ch := in.variadic(args[1])
+		if v, ok := p.Choices[args[0].(string)]; ok {
+			return v.(string), true
+		}
 		if f, ok := in.Fixed[args[0].(string)]; ok {
 			for _, c := range ch {
 				if c.(string) == f {
@@ -480,6 +489,8 @@ func (in *Interp) verifrt(name string, args []Value, site ssa.Instruction) (Valu
 		return args[0], true
 	case "Symbolic":
 		return true, true
+	case "RaceMode":
+		return false, true
 	case "SetDrawMode":
 		in.drawMode = int(args[0].(int64))
 		return nil, true
